@@ -187,7 +187,7 @@ func wxSetProp(msg protoreflect.Message, md protoreflect.MessageDescriptor, p *w
 			if err != nil {
 				return err
 			}
-			mp.Set(protoreflect.ValueOfString(v.M[i].K).MapKey(), pv)
+			mp.Set(protoreflect.ValueOfString(wxKeyOut(v.M[i].K)).MapKey(), pv)
 		}
 	}
 	return nil
@@ -380,7 +380,7 @@ func wxProjMsg(n *wSch, msg protoreflect.Message) wVal {
 		case "map":
 			mv := wVal{T: "map", M: []wKV{}}
 			msg.Get(fd).Map().Range(func(k protoreflect.MapKey, v protoreflect.Value) bool {
-				mv.M = append(mv.M, wKV{k.String(), wxProjNode(&p.Sch, v)})
+				mv.M = append(mv.M, wKV{wxKeyIn(k.String()), wxProjNode(&p.Sch, v)})
 				return true
 			})
 			sort.Slice(mv.M, func(a, b int) bool { return mv.M[a].K < mv.M[b].K })
